@@ -214,3 +214,21 @@ Theorem C04_f1_F1_from_forward_matrix :
        F1 (pobj :: ps1 :: psr) = Fin ((md M - mc M) / mc M).
 Proof. exact f1_F1_from_forward_matrix. Qed.
 Print Assumptions C04_f1_F1_from_forward_matrix.
+
+Theorem C04_EPL_classical :
+  forall (pss : list (psurf XOps)) (aobj : asurf) (pre : list asurf) (stop : asurf) (post : list asurf)
+         (zl : R) (k : nat) (z0 : R),
+       let ass := aobj :: pre ++ stop :: post in
+       Forall2 wf_surf (inverted pss) (arev zl ass) ->
+       a_obj aobj = true ->
+       Forall nonobj pre -> pre <> nil ->
+       stop_index pss = Some (S k) ->
+       stop_index (inverted pss) = Some (List.length post) ->
+       pos (O:=XOps) (inverted pss) (List.length post) = Fin (zl - a_z stop) ->
+       let M := sysmat pre z0 in
+       let e := (a_z stop - endz pre z0)%R in
+       let d := dfirst zl (zl - a_z stop) pre z0 in
+       mdet M <> 0%R -> (mc M * e + ma M)%R <> 0%R ->
+       EPL pss = Fin ((md M * e + mb M) / (mc M * e + ma M) - d).
+Proof. exact EPL_classical. Qed.
+Print Assumptions C04_EPL_classical.
